@@ -1,8 +1,8 @@
 package props
 
 import (
-	"google.golang.org/protobuf/proto"
 	"fmt"
+	"google.golang.org/protobuf/proto"
 	"math/rand"
 
 	"github.com/protobom/protobom/pkg/sbom"
